@@ -132,6 +132,7 @@ type explorer struct {
 	inputs          []inputRec
 	docs            []*docRec
 	docStrings      int
+	trees           map[string]treeRec
 	schedDeviations int
 	varSeq          map[string]int
 	tags            []tagRec
@@ -719,6 +720,7 @@ func (w *Worker) runPath(it WorkItem, seed uint64) {
 	e.inputs = nil
 	e.docs = nil
 	e.docStrings = 0
+	e.trees = nil
 	e.schedDeviations = 0
 	e.varSeq = map[string]int{}
 	e.tags = nil
